@@ -22,7 +22,7 @@ type realDesc struct{ d *plenccodec.Descriptor }
 func (r realDesc) Attr() (int, string, int, string, bool, int) {
 	return r.d.Index, r.d.Name, int(r.d.Type), r.d.TypeName, r.d.ExplicitPresence, int(r.d.LogicalType)
 }
-func (r realDesc) NumElements() int            { return len(r.d.Elements) }
+func (r realDesc) NumElements() int             { return len(r.d.Elements) }
 func (r realDesc) Element(i int) model.RealDesc { return realDesc{&r.d.Elements[i]} }
 
 // genDescType generates a type with a finite descriptor
@@ -326,8 +326,8 @@ func init() {
 	core.Register(&core.Prop{
 		ID:        "C14",
 		Technique: "structural comparison of the real Codec.Descriptor() with a descriptor derived independently from the reflect.Type, for every generated type and each of its tagged sub-types",
-		Rule: "generated and library types with a finite descriptor (all options, json tags incl. \",omitempty\", \"-\", unicode names, skipped and unexported fields, null.*, JSON any, BigQuery time, named scalars and containers) in the four configurations; index, name rule, field type, struct type name, explicit presence, logical types, order and count are compared recursively; a second instance with another time codec describes the same type; every fourth case 4 goroutines call Descriptor() on the shared codec at once. distinct = distinct (type, configuration) pairs with more than two descriptor nodes",
-		Assume: []string{"recursive types are excluded: Descriptor() does not terminate on them (known finding D20)", "the free-form TypeName of map-entry pseudo-structs is not part of the statement and is not compared"},
+		Rule:      "generated and library types with a finite descriptor (all options, json tags incl. \",omitempty\", \"-\", unicode names, skipped and unexported fields, null.*, JSON any, BigQuery time, named scalars and containers) in the four configurations; index, name rule, field type, struct type name, explicit presence, logical types, order and count are compared recursively; a second instance with another time codec describes the same type; every fourth case 4 goroutines call Descriptor() on the shared codec at once. distinct = distinct (type, configuration) pairs with more than two descriptor nodes",
+		Assume:    []string{"recursive types are excluded: Descriptor() does not terminate on them (known finding D20)", "the free-form TypeName of map-entry pseudo-structs is not part of the statement and is not compared"},
 		Plan: func(tier string) []core.Lane {
 			if tier == "thorough" {
 				return []core.Lane{{Lane: "plain", Cases: 6000000, Shards: 16, TimeoutS: 3600}}
